@@ -46,8 +46,8 @@ Steps(s, m, decoded) ==
                    [] o = "protect" -> Step("heap_protect", "C20", FALSE, [suite |-> (Len(s) % 9) + 1, role |-> (Len(s) % 2 = 0)],
                                             [panic |-> FALSE, err |-> FALSE, srchdr |-> HdrOf(m), orig |-> Norm(m).payloads, held |-> Norm(m).payloads, nsk |-> 1])
                    [] OTHER -> Step("heap_observe", "C20", FALSE, [x |-> 0],
-                                    IF decoded THEN [panic |-> FALSE, dmsg |-> DecMsg(m).payloads, orig |-> Norm(m).payloads, held |-> Norm(m).payloads, srchdr |-> HdrOf(m), heldsame |-> TRUE, insame |-> TRUE]
-                                               ELSE [panic |-> FALSE, orig |-> Norm(m).payloads, held |-> Norm(m).payloads, srchdr |-> HdrOf(m), heldsame |-> TRUE, insame |-> TRUE])
+                                    IF decoded THEN [panic |-> FALSE, dmsg |-> DecMsg(m).payloads, orig |-> Norm(m).payloads, held |-> Norm(m).payloads, srchdr |-> HdrOf(m), heldsame |-> TRUE, insame |-> TRUE, protsame |-> TRUE]
+                                               ELSE [panic |-> FALSE, orig |-> Norm(m).payloads, held |-> Norm(m).payloads, srchdr |-> HdrOf(m), heldsame |-> TRUE, insame |-> TRUE, protsame |-> TRUE])
        IN << st >> \o Steps(Tail(s), m, decoded \/ o \in {"decode", "unprotect"})
 
 HeapVector(s) ==
@@ -56,8 +56,8 @@ HeapVector(s) ==
                  \o Steps(s, m, FALSE)
                  \o << Step("heap_observe", "C20", FALSE, [x |-> 0],
                             IF \E i \in 1..Len(s) : s[i] \in {"decode", "unprotect"}
-                              THEN [panic |-> FALSE, dmsg |-> DecMsg(m).payloads, orig |-> Norm(m).payloads, held |-> Norm(m).payloads, srchdr |-> HdrOf(m), heldsame |-> TRUE, insame |-> TRUE]
-                              ELSE [panic |-> FALSE, orig |-> Norm(m).payloads, held |-> Norm(m).payloads, srchdr |-> HdrOf(m), heldsame |-> TRUE, insame |-> TRUE]) >>)
+                              THEN [panic |-> FALSE, dmsg |-> DecMsg(m).payloads, orig |-> Norm(m).payloads, held |-> Norm(m).payloads, srchdr |-> HdrOf(m), heldsame |-> TRUE, insame |-> TRUE, protsame |-> TRUE]
+                              ELSE [panic |-> FALSE, orig |-> Norm(m).payloads, held |-> Norm(m).payloads, srchdr |-> HdrOf(m), heldsame |-> TRUE, insame |-> TRUE, protsame |-> TRUE]) >>)
 
 Init == H!Init
 Next == H!Next
